@@ -309,10 +309,17 @@ type Run struct {
 	generic                  []Pred // genericity assumptions (lazily added to queries, see DESIGN §4.1)
 	genericK                 map[string]bool
 	interned                 []internEntry
+	internKey                map[string]int   // kind+normal-form key → entry
+	internVals               map[string][]int // kind+value under the current witness → entries
+	internValsN              int              // entries indexed in internVals
+	internValsWitness        int              // witnessGen the index belongs to
+	witnessGen               int              // incremented whenever the witness is re-seeded
 	handleIx                 map[string]int
 
 	witness   map[int]*big.Int
 	witnessOK bool
+	// number of path literals / genericity assumptions the current witness has been validated against
+	witnessPathN, witnessGenN int
 
 	// sigma is the triangular substitution derived from the equalities of the path condition
 	// (x ↦ polynomial over other variables); goals are normalised under it before they are posed.
@@ -757,7 +764,7 @@ func (r *Run) solve(extra []Pred, wantModel bool, seedFirst bool) (Verdict, map[
 	for iter := 0; iter < 8; iter++ {
 		script, names := r.scriptFor(extra, added)
 		var want []string
-		if wantModel || len(r.generic) > 0 {
+		if wantModel || len(r.generic) > 0 || (len(r.interned) > 1 && !r.serializationOnly) {
 			want = names
 		}
 		v, vals := r.eng.check(script, want)
@@ -773,6 +780,13 @@ func (r *Run) solve(extra []Pred, wantModel bool, seedFirst bool) (Verdict, map[
 		for _, g := range r.generic {
 			if !g.eval(m, r.q) {
 				viol = append(viol, g)
+			}
+		}
+		for _, g := range r.internViolations(m) {
+			viol = append(viol, g)
+			if k := g.key(); !r.genericK[k] && !r.pathK[k] {
+				r.genericK[k] = true
+				r.generic = append(r.generic, g)
 			}
 		}
 		if len(viol) == 0 {
@@ -932,7 +946,39 @@ func (r *Run) pathWitness() map[int]*big.Int {
 	if r.witnessOK {
 		return r.witness
 	}
+	// incremental maintenance: literals already validated only mention variables that existed then,
+	// so the previous witness extended by random values for the new variables still satisfies them;
+	// only the literals added since need to be evaluated. A failure falls back to a full re-seed.
+	if r.witness != nil && r.witnessPathN <= len(r.path) && r.witnessGenN <= len(r.generic) {
+		ok := true
+		for _, v := range *r.byID {
+			if _, has := r.witness[v.id]; !has {
+				r.witness[v.id] = r.uniformScalar()
+			}
+		}
+		for _, p := range r.path[r.witnessPathN:] {
+			if !p.eval(r.witness, r.q) {
+				ok = false
+				break
+			}
+		}
+		if ok {
+			for _, g := range r.generic[r.witnessGenN:] {
+				if !g.eval(r.witness, r.q) {
+					ok = false
+					break
+				}
+			}
+		}
+		if ok {
+			r.witnessPathN, r.witnessGenN = len(r.path), len(r.generic)
+			r.witnessOK = true
+			return r.witness
+		}
+	}
 	r.witness = r.seedModel(nil)
+	r.witnessGen++
+	r.witnessPathN, r.witnessGenN = len(r.path), len(r.generic)
 	r.witnessOK = true
 	return r.witness
 }
@@ -1035,6 +1081,23 @@ func (r *Run) rawRecheck(o *Obligation, p0 Pred) bool {
 		o.RawConfirmed++
 		return true
 	case Sat:
+		// the implicit distinctness of interned encodings is not part of the raw script: re-ask with
+		// it materialised before calling this a disagreement
+		if pw, ok := r.pairwiseGeneric(400); ok && len(pw) > 0 {
+			script2, _ := r.rawScript(append([]Pred{Not(p0)}, pw...))
+			switch v2, _ := r.eng.checkRaw(script2); v2 {
+			case Unsat:
+				r.eng.RawConfirmed++
+				o.RawConfirmed++
+				return true
+			case Unknown:
+				r.eng.RawUnknown++
+				return true
+			}
+		} else if !ok {
+			r.eng.RawUnknown++
+			return true
+		}
 		r.eng.RawDisagree++
 		worse(o, StInconclusive, "ENGINE-MISMATCH: raw-term query is satisfiable although the normal form says valid", nil)
 		return false
@@ -1160,7 +1223,7 @@ func (e *Engine) Explore(name string, h func(r *Run)) *Outcome {
 
 func (e *Engine) newRun(out *Outcome, script []scriptLit, vars map[string]*varInfo, byID *[]*varInfo) *Run {
 	r := &Run{eng: e, q: e.Q, vars: vars, byID: byID, pathK: map[string]bool{}, genericK: map[string]bool{},
-		handleIx: map[string]int{}, out: out, readers: map[string]*Reader{}, script: script, concrete: e.opt.Concrete != nil}
+		handleIx: map[string]int{}, internKey: map[string]int{}, out: out, readers: map[string]*Reader{}, script: script, concrete: e.opt.Concrete != nil}
 	r.field = &Field{run: r, q: e.Q}
 	r.group = &Group{run: r, f: r.field}
 	r.depth = len(script)
